@@ -41,6 +41,35 @@ fn morph_event(src: &PartialDSym, dst: &PartialDSym, how: &str) -> Value {
     e
 }
 
+/// class function (chamber -> least chamber of its class) of a partition, read off with find()
+fn cls_of(p: &rust_dsymbols::util::partitions::Partition<usize>, n: usize) -> Vec<usize> {
+    let reps: Vec<usize> = (1..=n).map(|c| p.find(&c)).collect();
+    (0..n).map(|c| (0..n).find(|&x| reps[x] == reps[c]).unwrap() + 1).collect()
+}
+
+/// fold(p0, d, e) for p0 = trivial partition and p0 = result of an earlier successful fold
+fn fold_events(sink: &mut Sink, s: &PartialDSym, rng: &mut StdRng) {
+    use rust_dsymbols::util::partitions::Partition;
+    let n = s.size();
+    let sj = dsym_json(s);
+    let mut pairs: Vec<(usize, usize)> = (1..=n).flat_map(|d| (1..=n).map(move |e| (d, e))).filter(|&(d, e)| d != e).collect();
+    if n > 4 { pairs.shuffle(rng); pairs.truncate(8); }
+    let mut chained: Option<Partition<usize>> = None;
+    for (d, e) in pairs {
+        for use_chain in [false, true] {
+            let p0 = if use_chain { match &chained { Some(p) => p.clone(), None => continue } } else { Partition::new() };
+            let mut ev = json!({"ev": "fold", "sym": sj, "d": d, "e": e, "p0": cls_of(&p0, n)});
+            pending(&ev);
+            match catch(|| s.fold(&p0, d, e)) {
+                Ok(Some(p)) => { ev["ok"] = json!(true); ev["cls"] = json!(cls_of(&p, n)); if !use_chain && chained.is_none() && rng.gen_bool(0.5) { chained = Some(p); } }
+                Ok(None) => { ev["ok"] = json!(false); ev["cls"] = json!([]); }
+                Err(m) => { ev["panic"] = json!(m); }
+            }
+            sink.emit(ev);
+        }
+    }
+}
+
 pub fn drive(args: &[String]) {
     let out = arg(args, "--out").unwrap();
     let files = arg(args, "--universe").unwrap_or_default();
@@ -57,6 +86,7 @@ pub fn drive(args: &[String]) {
         sink.emit(e);
         sink.emit(auts_event(s));
         sink.emit(morph_event(s, s, "self"));
+        if s.size() >= 2 && (s.size() <= 3 || rng.gen_bool(0.4)) { fold_events(&mut sink, s, &mut rng); }
         if let Some(o) = &o {
             if o.size() < s.size() { sink.emit(morph_event(s, o, "onto minimal image")); sink.emit(morph_event(o, s, "from minimal image")); }
         }
